@@ -748,6 +748,12 @@ func checkInfoSectionsIndependent(c *Ctx, r *Report, clause string, gens ...stri
 				if a.hasFieldNamed(other) && !a.hasFieldNamed(fv.Name()) {
 					viol = fmt.Sprintf("%s: info.%s is copied into the document only on a path that tested info.%s: a configuration with the one and without the other loses a section it configured", w.pos(st.Pos()), strings.ToLower(fv.Name()), strings.ToLower(other))
 				}
+				// the section is copied whenever it is configured: the only test of it is the nil test of the
+				// section itself, never a test of one of its (all optional) members (C20-m20: a contact
+				// with an e-mail but no name was dropped from the 3.1 document)
+				if m := memberReadOfSection(f.Cond, fv.Name(), 0, map[ssa.Value]bool{}); m != "" {
+					viol = fmt.Sprintf("%s: info.%s is copied into the document only when its member %s passes a test: the members of the section are optional, a configuration that sets the section without that member loses it", w.pos(st.Pos()), strings.ToLower(fv.Name()), m)
+				}
 			}
 		})
 		if n < 2 {
@@ -755,4 +761,54 @@ func checkInfoSectionsIndependent(c *Ctx, r *Report, clause string, gens ...stri
 		}
 		r.add(clause, "guardedby", g+":info-sections-independent", "contact and license are copied independently of each other", []string{g}, sites, viol)
 	}
+}
+
+// memberReadOfSection: the value is computed from a read of a member of the struct behind the
+// field named section (x.<section>.<member>); returns the member's name.
+func memberReadOfSection(v ssa.Value, section string, depth int, seen map[ssa.Value]bool) string {
+	if v == nil || depth > 8 || seen[v] {
+		return ""
+	}
+	seen[v] = true
+	isSection := func(x ssa.Value) bool {
+		x = stripTrivial(x)
+		if u, ok := x.(*ssa.UnOp); ok && u.Op == token.MUL {
+			x = u.X
+		}
+		switch y := x.(type) {
+		case *ssa.FieldAddr:
+			if fv := structFieldVar(y.X.Type(), y.Field); fv != nil && fv.Name() == section {
+				return true
+			}
+		case *ssa.Field:
+			if fv := structFieldVar(y.X.Type(), y.Field); fv != nil && fv.Name() == section {
+				return true
+			}
+		}
+		return false
+	}
+	switch x := v.(type) {
+	case *ssa.FieldAddr:
+		if isSection(x.X) {
+			if fv := structFieldVar(x.X.Type(), x.Field); fv != nil {
+				return fv.Name()
+			}
+		}
+	case *ssa.Field:
+		if isSection(x.X) {
+			if fv := structFieldVar(x.X.Type(), x.Field); fv != nil {
+				return fv.Name()
+			}
+		}
+	}
+	if ins, ok := v.(ssa.Instruction); ok {
+		for _, op := range ins.Operands(nil) {
+			if op != nil && *op != nil {
+				if m := memberReadOfSection(*op, section, depth+1, seen); m != "" {
+					return m
+				}
+			}
+		}
+	}
+	return ""
 }
